@@ -26,6 +26,21 @@ CHECKS = {
  "C17": ("exploration", "runtime differential monitor vs bit-at-a-time CRC-32C on exact-size ASan buffers; all lengths 0..1100 x alignments 0..7, both implementations called directly",
          "mtbl_crc32c, my_crc32c_slicing and (when the CPU has SSE4.2) my_crc32c_sse42 are compared with a bitwise reference on every length 0..1100 at every alignment, every byte value at every position mod 8, RFC 3720 vectors and random buffers; the table-driven path is also forced through the public entry point.",
          "trusted: 8-line bitwise CRC in harness/h_c17.c (self-checked against RFC 3720 vectors); hardware path covered only if cpuid reports SSE4.2", "DESIGN.md §4 C17"),
+ "C08": ("exploration", "runtime reference-model monitor of every mtbl_writer_add return value over adversarial key sequences; finished file vs accepted subsequence; pre-existing targets snapshot-compared",
+         "Add sequences with ~40% deliberately non-increasing keys (equal, proper prefix, byte lowered, 0xff tails, bytes crossing 0x7f/0x80, empty first key) are fed to the real writer; each return value is compared with the model (key > last accepted, own unsigned comparator), the finished file (independent decoder, real reader, count_entries) with the accepted subsequence; mtbl_writer_init on six kinds of pre-existing target must return NULL and leave lstat+content unchanged.",
+         "trusted: harness comparator/model, harness/refdec.c", "DESIGN.md §4 C08"),
+ "C11": ("exploration", "independent encoder with free legal encoding choices -> real reader compared with the model on iteration, derived lookups, seek histories; >4 GiB block built sparsely",
+         "The same logical content is encoded by harness/refenc.c under random legal choices (v1/v2, restart sets from every entry to only the first, non-maximal sharing, separators anywhere in the legal interval, block cuts, six compression types by direct library calls, foreign prefix, index-block choices), self-checked by the independent decoder, then read by the real reader: full iteration, derived lookups, random seek histories, directed block-gap seek sequences, with and without verify_checksums; a data block above 4 GiB with a 64-bit restart array and restart points above UINT32_MAX is built as a sparse file and iterated, looked up and sought.",
+         "trusted: harness/refenc.c + refdec.c (cross-checked against /repo/t sample files and the real reader at start-up)", "DESIGN.md §4 C11"),
+ "C12": ("fault_enumeration", "bit-flip fault injection into block crc+payload; outcomes observed through the real mtbl_verify tool and a forked verifying reader streaming returned entries over a pipe",
+         "Exhaustive single-bit flips over every block (crc field + stored bytes, index included) of small files, seeded double/triple-bit and burst<=32 faults on larger/compressed files hitting first/middle/last/index blocks; for each fault the real mtbl_verify must not print OK / exit 0 and a verifying reader (iterate, get, get_prefix, get_range, iter+seek) must not hand out any entry of the damaged block; intact files of every configuration must verify and read completely.",
+         "trusted: block extents from harness/refdec.c; fault classes restricted to those CRC-32C guarantees to detect", "DESIGN.md §4 C12"),
+ "C19": ("fault_enumeration", "guard-page interposition of the reader's mmap (ld --wrap) + field/truncation mutation enumeration; forked child outcome classification (plain and ASan builds)",
+         "The file image is placed between two 8 GiB PROT_NONE regions (end-aligned and start-aligned), so any access outside the file's bytes during mtbl_reader_init/_init_fd is a SIGSEGV. Enumerated: every trailer field against a boundary value set, magic swaps, index length prefix (varint and fixed32) against the value set and 1-byte corruptions, truncations, head cuts, all lengths 512..544, seeded random files; verify_checksums on and off.",
+         "trusted: the mmap shim (harness/h_c19.c); 8 GiB horizon; allowed outcomes NULL / reader / SIGABRT", "DESIGN.md §4 C19"),
+ "C20": ("fault_enumeration", "link-time interposition of write(2) (ld --wrap=write) executing scripted fault plans; byte comparison with the all-full reference; hard errors in forked children",
+         "For small tables every write() call index x {partial(1), partial(n-1), partial(n/2), EINTRx1, EINTRx3} is executed and the finished file compared byte-for-byte with the reference; every call index x hard error {EIO, ENOSPC, EBADF, return 0} must stop the process with a message and never return from mtbl_writer_destroy; seeded multi-fault plans (p=0.1/0.5/0.9, one-byte writes) on small/medium, pooled/unpooled writers.",
+         "trusted: the write shim; partial writes really write n bytes", "DESIGN.md §4 C20"),
  "C16": ("exploration", "runtime differential monitor vs textbook LEB128 + ASan exact-size buffers; exhaustive 2^32 enumeration in thorough",
          "Every 32-bit value (thorough: all 2^32, quick: 64 full 2^20 ranges) and boundary/walking/random 64-bit values are encoded, decoded and measured by the real functions and compared byte-for-byte with a textbook LEB128 / explicit little-endian reference; buffers are exact-size heap allocations under ASan so any access beyond the encoding is a report. Exhaustive for the 32-bit half, sampled for 64 bits.",
          "trusted: the 10-line LEB128 reference in harness/h_c16.c, gcc ASan red zones", "DESIGN.md §4 C16"),
